@@ -319,6 +319,39 @@ func (el *eventloop) flushDone(c *conn) {
 	}
 }
 
+// FailFrag completes the request a fragment belongs to with an error reply,
+// for a fragment whose reply can no longer arrive (its server connection is
+// gone, it was redirected to a node that cannot be reached), and sends what has
+// become deliverable to the client.
+func FailFrag(f *Frag, e codec.Error) {
+	if f == nil || f.Owner == nil || f.Peer == nil || f.Done || f.Peer.Done {
+		return
+	}
+	msg := f.Peer
+	msg.Error = e
+	msg.RspBody = append(msg.RspBody[:0], e.Bytes()...)
+	msg.Done = true
+	for _, v := range msg.Body {
+		v.Done = true
+	}
+	if c, ok := f.Owner.(*conn); ok && c.opened {
+		c.loop.flushDone(c)
+	}
+}
+
+// failPending answers every request that is still queued on, or waiting for a
+// reply from, a server connection that is being closed.
+func (el *eventloop) failPending(s *conn) {
+	for _, q := range []*FragQueue{s.inFragQueue, s.outFragQueue} {
+		if q == nil {
+			continue
+		}
+		for f := q.head; f != nil; f = f.prev {
+			FailFrag(f, codec.ErrServerConnClosed)
+		}
+	}
+}
+
 const iovMax = 1024
 
 func (el *eventloop) write(c *conn) error {
@@ -400,6 +433,7 @@ func (el *eventloop) closeConn(c *conn, err error, closeType ConnCloseType) (rer
 			GlobalStats.ClientConnectionsClientErr.WithLabelValues().Inc()
 		}
 	case ConnServer:
+		el.failPending(c)
 		el.eventHandler.OnSClosed(c, err)
 		el.addSConn(-1)
 		switch closeType {
